@@ -77,9 +77,10 @@ Definition sortZ (l : list Z) : list Z := fold_right insertZ [] l.
 (** GraphCluster.iterative_cluster: [1]*n | attributes | [sorted(v) for v in attributes] *)
 Definition gc_key (mode : attr_mode) (x : item) : list Z :=
   match mode with ANone => [] | AStr => it_attr x | AList => sortZ (it_attr x) end.
-(** BatchCluster.lib_check: temp.get(attribute_key) == att, no sorting *)
+(** BatchCluster.lib_check / _attribute_key: sorted(value) if isinstance(value, list) else value
+    (after repair 6f9daf3; before it the raw list was compared) *)
 Definition bc_key (mode : attr_mode) (x : item) : list Z :=
-  match mode with ANone => [] | _ => it_attr x end.
+  match mode with ANone => [] | AStr => it_attr x | AList => sortZ (it_attr x) end.
 
 Definition memb (i : nat) (l : list nat) : bool := existsb (Nat.eqb i) l.
 
